@@ -73,6 +73,7 @@ ASSUMPTIONS = [
 KNOWN = {"polar_roundtrip": True, "antipodal_nan": True}
 
 EPS = float(np.finfo(float).eps)
+TINY = 1e-290  # absolute floor: t / anis underflows gradually for subnormal times
 DEG = float(gs.DEGREE_SCALE)
 KM = float(gs.KM_SCALE)
 
@@ -474,7 +475,7 @@ def check_convert(case, rec):
             dict(tags, kind="radius"),
         )
         if T:
-            tol_t = 4 * EPS * np.abs(want[3]) + 1e-300
+            tol_t = 4 * EPS * np.abs(want[3]) + TINY
             err_t = np.abs(arr[3] - want[3])
             require(
                 bool(np.all(err_t <= tol_t)),
@@ -546,7 +547,7 @@ def check_convert(case, rec):
             )
         if T:
             require(
-                bool(np.all(np.abs(arr[2] - t) <= 8 * EPS * np.abs(t))),
+                bool(np.all(np.abs(arr[2] - t) <= 8 * EPS * np.abs(t) + TINY)),
                 f"{name}: time not recovered: {arr[2]} vs {t}",
                 dict(tags, kind="roundtrip_time"),
             )
@@ -570,7 +571,7 @@ def check_convert(case, rec):
         )
     if T:
         require(
-            bool(np.all(np.abs(P2[3] - P[3]) <= 8 * EPS * np.abs(P[3]))),
+            bool(np.all(np.abs(P2[3] - P[3]) <= 8 * EPS * np.abs(P[3]) + TINY)),
             "anisometrize: time axis not t*anis[-1]",
             dict(tags, kind="inverse_time"),
         )
@@ -1043,7 +1044,7 @@ def gen_estimator(draw, tier="quick"):
     case = {"geo_scale": float(g), "pts": pts, "field": field, "mode": mode}
     if mode == "given":
         nb = draw(st.integers(1, 8))
-        top = draw(st.one_of(st.floats(0.05, 1.05), st.sampled_from([1.0, 1.05, 0.5]))) * math.pi
+        top = draw(st.one_of(st.floats(0.05, 1.05), st.sampled_from([1.05, 0.97, 0.51]))) * math.pi
         if spread is not None and pts["kind"] == "regional" and draw(st.booleans()):
             top = min(top, 2.2 * spread)
         first = draw(st.sampled_from([0.0, 0.0, 0.0, 0.02]))
@@ -1090,6 +1091,20 @@ def _brute(dist, field, edges, all_bins=()):
     return cnt, sm
 
 
+def _haversine_arg(lat_i, lon_i, lat_j, lon_j):
+    """sin^2(d/2) in the operation order of estimator.pyx::dist_haversine.
+
+    Only used to single out the pairs for which the kernel's argument exceeds 1
+    (KNOWN['antipodal_nan']); never to decide a bin.
+    """
+    d2r = math.pi / 180.0
+    dlat = (lat_j - lat_i) * d2r
+    dlon = (lon_j - lon_i) * d2r
+    return math.pow(math.sin(dlat / 2.0), 2) + math.cos(lat_i * d2r) * math.cos(lat_j * d2r) * math.pow(
+        math.sin(dlon / 2.0), 2
+    )
+
+
 def _matheron(cnt, sm):
     return np.where(cnt > 0, sm / (2.0 * np.maximum(cnt, 1)), 0.0)
 
@@ -1134,7 +1149,8 @@ def check_estimator(case, rec):
     # conditioning of chord -> arc near the antipode
     hi = g * float(geo.arc_from_chord(diag * (1 + 8 * EPS) / g))
     lo = g * float(geo.arc_from_chord(diag * (1 - 8 * EPS) / g))
-    tol_box = (1e-12 * arc_box + max(hi - arc_box, arc_box - lo)) / 3.0
+    # positions are known to a few eps*g absolutely -> so is the box diagonal
+    tol_box = (1e-12 * arc_box + max(hi - arc_box, arc_box - lo) + 16 * EPS * g) / 3.0
     sb = lib(gs.standard_bins, pos.copy(), latlon=True, geo_scale=g, _tags=tags)
     nb_st = int(math.ceil(2 * math.log2(n) + 1))
     require(
@@ -1178,8 +1194,8 @@ def check_estimator(case, rec):
         )
         edges = np.linspace(0.0, mx, nb + 1)
         arg_edges = None
-    if edges[-1] <= 0 or not np.all(np.diff(edges) > 0):
-        rec.exclude("degenerate_bins")  # all points coincide: no bins to test
+    if edges[-1] <= 1e-9 * g or not np.all(np.diff(edges) > 0):
+        rec.exclude("degenerate_bins")  # all points coincide (to rounding): no bins to test
         rec.nontrivial(False)
         return
     if _near_edge(arc, g, edges):
@@ -1211,15 +1227,16 @@ def check_estimator(case, rec):
         # (near-)antipodal pairs: sin^2(d/2) can round to 1 + 2.2e-16 in the
         # haversine kernel -> distance NaN -> the pair enters every bin
         iu = np.triu_indices(n, 1)
-        prone = [(int(i), int(j)) for i, j in zip(*iu) if arc[i, j] > math.pi - 1e-7]
+        prone = {
+            (int(i), int(j))
+            for i, j in zip(*iu)
+            if arc[i, j] > math.pi - 1e-7 and _haversine_arg(lat[i], lon[i], lat[j], lon[j]) > 1.0
+        }
         match = None
-        if 0 < len(prone) <= 6:
-            for mask in range(1, 2 ** len(prone)):
-                sub = {p for b, p in enumerate(prone) if mask >> b & 1}
-                c2, s2 = _brute(arc * g, field, edges, all_bins=sub)
-                if np.array_equal(counts, c2):
-                    match = (c2, s2, sub)
-                    break
+        if prone:
+            c2, s2 = _brute(arc * g, field, edges, all_bins=prone)
+            if np.array_equal(counts, c2):
+                match = (c2, s2, prone)
         if match is None or not KNOWN["antipodal_nan"]:
             require(
                 False,
@@ -1436,7 +1453,7 @@ SUBS = [
     Sub("convert", gen_convert, check_convert, quick=1600, thorough=40000, shards_quick=2, shards_thorough=8),
     Sub("euclid_t", gen_euclid_t, check_euclid_t, quick=800, thorough=16000, shards_quick=2, shards_thorough=4),
     Sub("cov", gen_cov, check_cov, quick=900, thorough=20000, shards_quick=3, shards_thorough=8),
-    Sub("srf", gen_srf, check_srf, quick=240, thorough=5000, shards_quick=2, shards_thorough=4, shrink_quick=False),
+    Sub("srf", gen_srf, check_srf, quick=160, thorough=5000, shards_quick=2, shards_thorough=4, shrink_quick=False),
     Sub("estimator", gen_estimator, check_estimator, quick=1200, thorough=30000, shards_quick=3, shards_thorough=8),
     Sub("fit", gen_fit, check_fit, quick=240, thorough=5000, shards_quick=2, shards_thorough=4),
     Sub("rotation", gen_rotation, check_rotation, quick=400, thorough=10000, shards_quick=2, shards_thorough=6),
